@@ -1,5 +1,6 @@
 //@ item: float/src/utils.rs :: shl_digits
 pub fn shl_digits<const B: Word>(value: &IBig, exp: usize) -> IBig
+/*@ #[ref_lhs(value)] @*/
 /*@
     requires B >= 2,
         exp * 64 <= usize::MAX,     // resource (pos_room): the bit count exp * log2(B) of the power-of-two branch fits usize
